@@ -33,7 +33,7 @@ from common import close
 
 REQUIRED = ['slots_last', 'guard_complete', 'results_guard', 'results_guard_nofit', 'fitted_isSome_iff',
             'spec_accepted', 'error_keeps_state', 'refit_fresh', 'lastSpecs_mem', 'history_independent',
-            'clean_calm', 'normalize_short', 'sticky_refutes', 'tables_wf']
+            'clean_calm', 'normalize_short', 'calm_needed', 'tables_wf', 'tables_all']
 RULE = ('per estimator class and configuration cell (outcome type x missing outcomes x weights x standardize / '
         'generalize ...) a random data set (n 150-300) and (a) the guard stream: every method on a fresh object and '
         'after every single specification; (b) random call histories of 3-8 (quick) / 4-14 (thorough) calls mixing '
@@ -449,23 +449,13 @@ def mk_specs():
                 M(9, "plot_kde('outcome')", 'read', noargs, fixed('plot_kde', to_plot='outcome')),
                 M(10, 'plot_love', 'read', noargs, kw('plot_love'))]
 
-    def feat_custom(recs, op):
-        """summary after a slot was specified with a custom model and later re-specified without one"""
-        if op['name'] != 'summary':
-            return None
-        for slot in ('exposure_model', 'missing_model', 'outcome_model'):
-            calls = [r for r in recs if r['name'] == slot and r['status'] == 'ok']
-            if calls and any(r['flag'] for r in calls[:-1]) and not calls[-1]['flag']:
-                return 'stale_custom_model_flag', ['printed text']
-        return None
-
     S['AIPTW'] = Spec(
         'AIPTW', product(ybin=[True, False], miss=[True, False], weights=[None, 'W'], custom=[False, True]),
         cross, lambda df, c: AIPTW(df, exposure='A', outcome='Y', weights=c['weights']),
         dr_methods(g_out_a),
         ['risk_difference', 'risk_ratio', 'risk_difference_ci', 'risk_ratio_ci', 'risk_difference_se', 'risk_ratio_se',
          'average_treatment_effect', 'average_treatment_effect_ci', 'average_treatment_effect_se'],
-        {'fit': ['exposure_model', 'outcome_model']}, taints={0: ['printed text'], 1: ['printed text'], 2: ['printed text']}, feature=feat_custom)
+        {'fit': ['exposure_model', 'outcome_model']})
 
     S['TMLE'] = Spec(
         'TMLE', product(ybin=[True, False], miss=[True, False], alpha=[0.05, 0.2], custom=[False, True]),
@@ -475,7 +465,7 @@ def mk_specs():
          'risk_difference_se', 'risk_ratio_se', 'odds_ratio_se', 'average_treatment_effect',
          'average_treatment_effect_ci', 'average_treatment_effect_se', 'g1W', 'g0W', 'm1W', 'm0W', 'QA1W', 'QA0W',
          'QAW'],
-        {'fit': ['exposure_model', 'outcome_model']}, taints={0: ['printed text'], 1: ['printed text'], 2: ['printed text']}, feature=feat_custom)
+        {'fit': ['exposure_model', 'outcome_model']})
 
     # ---------------------------------------------------------------- StochasticTMLE
     def g_sexp(rng, cell):
@@ -496,14 +486,6 @@ def mk_specs():
         a['seed'] = int(rng.integers(1, 10 ** 6))
         return a, False
 
-    def feat_sbound(recs, op):
-        if op['name'] != 'summary':
-            return None
-        calls = [r for r in recs if r['name'] == 'exposure_model' and r['status'] == 'ok']
-        if calls and any(r['flag'] for r in calls[:-1]) and not calls[-1]['flag']:
-            return 'stale_specified_bound', ['printed text']
-        return None
-
     S['StochasticTMLE'] = Spec(
         'StochasticTMLE', product(ybin=[True, False], miss=[False, True], alpha=[0.05]),
         cross, lambda df, c: StochasticTMLE(df, exposure='A', outcome='Y', alpha=c['alpha']),
@@ -514,12 +496,12 @@ def mk_specs():
          M(4, 'run_diagnostics', 'res', noargs, kw('run_diagnostics'))],
         ['marginal_outcome', 'marginal_se', 'marginal_ci', 'conditional_se', 'conditional_ci', 'epsilon',
          'marginals_vector'],
-        {'fit': ['exposure_model', 'outcome_model']}, taints={0: ['printed text']}, feature=feat_sbound)
+        {'fit': ['exposure_model', 'outcome_model']})
 
     # ---------------------------------------------------------------- TimeFixedGFormula
     def g_gfit(rng, cell):
         return {'treatment': pick(rng, ['all', 'none', 'all', 'none', "g['L1']==1", "(g['L2']>0) & (g['L3']==0)"]),
-                'predict_missing': bool(rng.uniform() < 0.7)}, True       # flag: writes predicted_df
+                'predict_missing': bool(rng.uniform() < 0.7)}, False
 
     def g_gsto(rng, cell):
         if rng.uniform() < 0.6:
@@ -530,13 +512,6 @@ def mk_specs():
         a.update(samples=int(pick(rng, [4, 9])), seed=int(rng.integers(1, 10 ** 6)),
                  predict_missing=bool(rng.uniform() < 0.7))
         return a, False
-
-    def feat_pdf(recs, op):
-        """predicted_df is written by fit only; after a later fit_stochastic it still holds the earlier plan"""
-        fits = [r for r in recs + [dict(op, status='ok')] if r['kind'] == 'fit' and r['status'] == 'ok']
-        if fits and fits[-1]['name'] == 'fit_stochastic' and any(r['name'] == 'fit' for r in fits):
-            return 'stale_predicted_df_after_fit_stochastic', ['attribute predicted_df']
-        return None
 
     S['TimeFixedGFormula'] = Spec(
         'TimeFixedGFormula', product(otype=['binary', 'normal', 'poisson'], miss=[False, True], weights=[None, 'W'],
@@ -550,8 +525,7 @@ def mk_specs():
          M(2, 'fit_stochastic', 'fit', g_gsto, kw('fit_stochastic')),
          M(3, 'run_diagnostics', 'read', noargs, kw('run_diagnostics')),
          M(4, 'plot_kde', 'read', noargs, kw('plot_kde'))],
-        ['marginal_outcome', 'predicted_df'], {'fit': ['outcome_model'], 'fit_stochastic': ['outcome_model']},
-        taints={0: ['attribute predicted_df']}, feature=feat_pdf)
+        ['marginal_outcome', 'predicted_df'], {'fit': ['outcome_model'], 'fit_stochastic': ['outcome_model']})
 
     # ---------------------------------------------------------------- SurvivalGFormula
     S['SurvivalGFormula'] = Spec(
@@ -580,14 +554,6 @@ def mk_specs():
             a['starting_value'] = [0.1] * (2 if o._snm_ and ':' in o._snm_ else 1)
         return o.fit(**a)
 
-    def feat_snm(recs, op):
-        if op['name'] != 'summary':
-            return None
-        fits = [r for r in recs if r['name'] == 'fit' and r['status'] == 'ok']
-        if fits and any(r['flag'] for r in fits[:-1]) and not fits[-1]['flag']:
-            return 'stale_scipy_solver_obj', ['status']
-        return None
-
     S['GEstimationSNM'] = Spec(
         'GEstimationSNM', product(ybin=[False, True], miss=[True, False], weights=[None, 'W']),
         cross, lambda df, c: GEstimationSNM(df, exposure='A', outcome='Y', weights=c['weights']),
@@ -598,7 +564,7 @@ def mk_specs():
          M(2, 'missing_model', 'spec', g_mm, kw('missing_model')),
          M(3, 'fit', 'fit', g_snmfit, call_snmfit),
          M(4, 'summary', 'res', noargs, kw('summary'))],
-        ['psi', 'psi_labels', 'ipmw'], {'fit': ['exposure_model', 'structural_nested_model']}, feature=feat_snm)
+        ['psi', 'psi_labels', 'ipmw'], {'fit': ['exposure_model', 'structural_nested_model']})
 
     # ---------------------------------------------------------------- generalize
     SEL = ['L1', 'L1 + L2', 'L1 + L2 + L1:L2']
@@ -664,12 +630,6 @@ def mk_specs():
             a['model_numerator'] = ['1', '1']
         return a, True
 
-    def feat_ipmw(recs, op):
-        if op['name'] == 'regression_models' and any(r['name'] == 'regression_models' and r['status'] == 'ok'
-                                                      for r in recs):
-            return 'uniform_missing_overwritten', ['status']
-        return None
-
     def mk_ipmw(df, c):
         mv = 'X' if c['kind'] == 'single' else ['X', 'Z']
         return IPMW(df, missing_variable=mv, stabilized=c['stabilized'], monotone=True)
@@ -681,7 +641,7 @@ def mk_specs():
                      {'fit': ['regression_models']})
     S['IPMWuniform'] = Spec('IPMW', product(kind=['uniform'], stabilized=[False, True]),
                             lambda rng, c, n: gen_ipmw(rng, n, 'uniform'), mk_ipmw, ipmw_methods, ['Weight'],
-                            {'fit': ['regression_models']}, lean_name='IPMWuniform', feature=feat_ipmw)
+                            {'fit': ['regression_models']}, lean_name='IPMWuniform')
 
     S['IPCW'] = Spec(
         'IPCW', product(flat=[False]),
@@ -908,7 +868,9 @@ def run_history(chk, drv, spec, cell, df, dseed, ops, tag, judge_every=True, nge
         if op['name'] == 'summary' and not any(r['kind'] == 'fit' and r['status'] == 'ok' for r in recs):
             chk.d(res[0] == 'err', '%s.summary before a successful fit raises' % spec.name, case)
         # ---- K1: the model predicts where the object raises
-        if op['mid'] in unavailable:
+        if op['mid'] in unavailable or (res[0] == 'err' and any(e in res[1] for e in ENV_ERRORS)):
+            # incompatibility of zEpid with the installed numpy / matplotlib (same failure on a fresh object, which
+            # D3 below still compares); the model is not asked to predict it
             chk.count('k_status_not_judged_unavailable_in_environment')
         elif model is not None:
             chk.k(model[i]['ok'] == (res[0] == 'ok'), '%s.%s raises iff the model says so' % (spec.name, op['name']),
@@ -943,7 +905,8 @@ run_history.fresh = {}
 
 
 ENV_ERRORS = ('only 0-dimensional arrays can be converted to Python scalars',      # float(ndarray of size 1), numpy >= 2.x
-              "unexpected keyword argument 'labels'")                                # Axes.boxplot(labels=), matplotlib >= 3.11
+              "unexpected keyword argument 'labels'",                                # Axes.boxplot(labels=), matplotlib >= 3.11
+              "module 'numpy' has no attribute 'str'")       # GEstimationSNM.summary after fit(solver='search'): np.str
 
 
 def probe_unavailable(rng, spec, cell, df):
